@@ -2,6 +2,7 @@ mod gen;
 mod gen_text;
 mod ops;
 mod ops_access;
+mod ops_chain;
 mod ops_edit;
 mod ops_order;
 mod ops_path;
